@@ -44,6 +44,7 @@ type opResult struct {
 	rev      statedb.Revision // revision of the object
 	err      error
 	id       uint64 // the "pending" identifier
+	retry    bool   // the operation was a retry of a failed update (the object's status is Error)
 }
 
 func (incr *incremental[Obj]) run(ctx context.Context, txn statedb.ReadTxn, changes iter.Seq2[statedb.Change[Obj], statedb.Revision]) (errs []error, lastRev statedb.Revision, retryLowWatermark statedb.Revision) {
@@ -96,7 +97,7 @@ func (incr *incremental[Obj]) single(ctx context.Context, txn statedb.ReadTxn, c
 		// Clear retries as the object has changed.
 		incr.retries.Clear(obj)
 
-		incr.processSingle(ctx, txn, obj, rev, change.Deleted)
+		incr.processSingle(ctx, txn, obj, rev, change.Deleted, false)
 		incr.numReconciled++
 		if incr.numReconciled >= incr.config.IncrementalRoundSize {
 			break
@@ -192,13 +193,13 @@ func (incr *incremental[Obj]) processRetries(ctx context.Context, txn statedb.Re
 			break
 		}
 		incr.retries.Pop()
-		incr.processSingle(ctx, txn, item.object.(Obj), item.rev, item.delete)
+		incr.processSingle(ctx, txn, item.object.(Obj), item.rev, item.delete, true)
 		incr.numReconciled++
 	}
 	return incr.retries.LowWatermark()
 }
 
-func (incr *incremental[Obj]) processSingle(ctx context.Context, txn statedb.ReadTxn, obj Obj, rev statedb.Revision, delete bool) {
+func (incr *incremental[Obj]) processSingle(ctx context.Context, txn statedb.ReadTxn, obj Obj, rev statedb.Revision, delete bool, retry bool) {
 	start := time.Now()
 
 	var (
@@ -219,7 +220,7 @@ func (incr *incremental[Obj]) processSingle(ctx context.Context, txn statedb.Rea
 		op = OpUpdate
 		err = incr.config.Operations.Update(ctx, txn, rev, obj)
 		status := incr.config.GetObjectStatus(obj)
-		incr.results[obj] = opResult{original: orig, id: status.ID, rev: rev, err: err}
+		incr.results[obj] = opResult{original: orig, id: status.ID, rev: rev, err: err, retry: retry}
 	}
 	incr.metrics.ReconciliationDuration(incr.moduleID, incr.name, op, time.Since(start))
 
@@ -261,8 +262,15 @@ func (incr *incremental[Obj]) commitStatus() (numErrors int) {
 			// The limitation of this approach is that we cannot support the reconciler
 			// modifying the object during reconciliation as the following will forget
 			// the changes.
+			//
+			// A retried object carries the Error status written after the failed attempt.
+			// If that is still its status only the statuses of other reconcilers have changed
+			// since (a change to the object itself marks it pending again), and the result of
+			// the retry applies as well. Without this the result would be dropped and, as the
+			// retry has been consumed, the object would be stuck with the Error status.
 			currentStatus := incr.config.GetObjectStatus(current)
-			if currentStatus.Kind == StatusKindPending && currentStatus.ID == result.id {
+			if (currentStatus.Kind == StatusKindPending && currentStatus.ID == result.id) ||
+				(result.retry && currentStatus.Kind == StatusKindError) {
 				current = incr.config.CloneObject(current)
 				current = incr.config.SetObjectStatus(current, status)
 				_, _, err = incr.table.Insert(wtxn, current)
